@@ -547,8 +547,19 @@ class Spec:
             return None
         if name == "print":
             s = self.value(args[0])
-            if len(args) != 1 or not isinstance(s, str) or "$" in s:
-                raise OutOfClass("print with references")
+            if len(args) != 1 or not isinstance(s, str):
+                raise OutOfClass("print with a second argument")
+            if "$" in s:
+                # C16: the text verbatim, each reference replaced by the value current at this point of this line
+                import print_suite as PS
+
+                try:
+                    chunks = PS.parse_template(s)
+                    env = {"variables": self.vars, "headers": self.headers, "line": self.line, "metadata": {},
+                           "fields": {"count_lines": self.idx + 1, "line_number": self.idx, "count_scans": self.scan_count}}
+                    s = PS.spec_expected(chunks, env)
+                except PS.OutOfClass as e:
+                    raise OutOfClass(f"print: {e}")
             self.prints.append(s)
             return None
         raise OutOfClass(f"function {name}")
